@@ -157,18 +157,26 @@ def lapack_cases(rng, n, maxn):
     """float-wire cases for the LAPACK-backed methods: kind, shape, rank and integer factors are on the integer
     side; the harness builds the matrix, calls the method and returns residuals of the defining equations."""
     cases = []
-    for _ in range(n):
-        kind = rng.choice([1, 1, 2, 2, 2, 3, 3, 4, 4, 5, 6, 7, 8, 8, 8, 9])
-        m = rng.randint(1, maxn); nn = rng.randint(1, maxn)
+    def dim():
+        c = rng.random()
+        return 0 if c < 0.08 else 1 if c < 0.25 else 2 if c < 0.35 else rng.randint(3, maxn)
+    # every LAPACK-backed method on every small shape (0..3 x 0..3: empty, 1x1, 1xN, Nx1, tall, wide, square), full rank and rank-deficient
+    for kind in (1, 2, 3, 4, 5, 6, 7, 8, 9, 10):
+        for m in range(4):
+            for nn in range(4):
+                for r in sorted({min(m, nn), max(min(m, nn) - 1, 0)}):
+                    cases.append("c13l %d %d %d %d %d |" % (kind, m, nn, r, rng.randint(1, 2 ** 30)))
+    while len(cases) < n:
+        kind = rng.choice([1, 1, 2, 2, 2, 3, 3, 4, 4, 5, 6, 7, 8, 8, 8, 9, 9, 9, 10])
+        m = dim(); nn = dim()
         r = min(m, nn) if rng.random() < 0.5 else rng.randint(0, min(m, nn))
-        seed = rng.randint(1, 2 ** 30)
-        cases.append("c13l %d %d %d %d %d |" % (kind, m, nn, r, seed))
+        cases.append("c13l %d %d %d %d %d |" % (kind, m, nn, r, rng.randint(1, 2 ** 30)))
     return cases
 
 # positions (after the condition number) of the bitwise receiver/argument comparisons in the harness output
-PURITY = {1: [2], 2: [5], 8: [5], 3: [5], 4: [2, 3, 4], 5: [2], 6: [1], 7: [1], 9: [4]}
+PURITY = {1: [2], 2: [5], 8: [5], 3: [5], 4: [2, 3, 4], 5: [2], 6: [1], 7: [1], 9: [4], 10: [4]}
 LK = {1: "Matrix::inverse", 2: "Matrix::pinverse", 3: "Matrix::svd", 4: "SymMatrix::solveLin", 5: "SymMatrix::inverse/invert",
-      6: "SymMatrix::det", 7: "SymMatrix::posdefinverse", 8: "Matrix::pinverse(reltol)", 9: "nullspace_projector"}
+      6: "SymMatrix::det", 7: "SymMatrix::posdefinverse", 8: "Matrix::pinverse(reltol)", 9: "nullspace_projector", 10: "nullspace_projector (rank-deficient input)"}
 
 def main(replay=None):
     ck = core.Check(PROP, "proof")
@@ -246,12 +254,15 @@ def main(replay=None):
                 ck.violation("%s: crash" % name, "%s crashed on a generated matrix: case `%s`" % (name, c), dict(kind="lapack", lapack_cases=[c], impl=[o])); continue
             if zi[0] == 5: lskipped += 1; continue                    # condition number above 1e8: discarded, counted
             if zi[0] != 0:
-                ck.violation("%s: status %d" % (name, zi[0]), "%s ended with status %d on a generated matrix: case `%s`" % (name, zi[0], c), dict(kind="lapack", lapack_cases=[c], impl=[o])); continue
+                ck.violation("%s: status %d" % (name, zi[0]), "%s %s where its definition gives a value (shape %sx%s, rank %s): case `%s` (kind m n rank seed)" % (name, {1: "threw std::invalid_argument", 2: "threw a maths exception", 3: "threw", 6: "returned a result of the wrong shape"}.get(zi[0], "ended with status %d" % zi[0]), c.split()[2], c.split()[3], c.split()[4], c), dict(kind="lapack", lapack_cases=[c], impl=[o])); continue
             cond = fl[0]; tol = 1e-9 * max(cond, 1.0)
             for k, r in enumerate(fl[1:]):
                 lworst[name] = max(lworst.get(name, 0.0), r / max(cond, 1.0))
                 if k in PURITY.get(kind, []) and not (r <= tol):
                     ck.violation("%s: const operand modified" % name, "%s changed its receiver or an argument that it must not write (bitwise comparison with the snapshot taken before the call, slot %d). case `%s`" % (name, k, c),
+                                 dict(kind="lapack", lapack_cases=[c], impl=[o]))
+                elif kind == 10 and k == 3 and not (r <= tol):
+                    ck.violation("nullspace_projector: rank-deficient input", "nullspace_projector(M) of a rank-deficient M projects on a proper subspace of the null space: trace(P) differs from ncol-rank(M) by %.3g. case `%s` (kind m n rank seed)" % (r, c),
                                  dict(kind="lapack", lapack_cases=[c], impl=[o]))
                 elif not (r <= tol):
                     ck.violation("%s: equation %d" % (name, k), "%s violates its defining equation #%d: residual %.3g > %.3g (cond %.3g). case `%s`" % (name, k, r, tol, cond, c),
